@@ -71,12 +71,94 @@ theorem eacc_read {e : Expr} : ∀ ev ∈ eacc e, ev.write = false := by
     · exact iha ev h
     · exact ihb ev h
 
-/-- every statically written variable has a WRITE event -/
-theorem wvars_written {s : Stmt} {x : Nat} (h : x ∈ wvars s) : isWritten (sacc s) x = true := by
+/-! ## execution: agreement with MiniF, static write set, frame -/
+
+theorem rexec_ofStmt (fuel : Nat) (s : Stmt) : rexec fuel (ofStmt s) = exec s := by
   induction s with
-  | skip => simp [wvars] at h
+  | skip => rfl
+  | seq a b iha ihb => funext σ; simp only [ofStmt, rexec, exec, iha, ihb]
+  | assign x e => rfl
+  | store1 a i e => rfl
+  | store2 a i j e => rfl
+  | ite c t f iht ihf => funext σ; simp only [ofStmt, rexec, exec, iht, ihf]
+  | loop v lo hi st b ih => funext σ; simp only [ofStmt, rexec, exec, ih]
+
+/-- variables a statement may write -/
+def rwvars : RStmt → List Nat
+  | .skip => []
+  | .seq a b => rwvars a ++ rwvars b
+  | .assign x _ => [x]
+  | .store1 a _ _ => [a]
+  | .store2 a _ _ _ => [a]
+  | .ite _ t f => rwvars t ++ rwvars f
+  | .loop v _ _ _ b => v :: rwvars b
+  | .whileDo _ b => rwvars b
+
+theorem whileN_invariant (P : Store → Prop) (c : Expr) (f : Store → Store)
+    (hf : ∀ σ, P σ → P (f σ)) : ∀ n σ, P σ → P (whileN c f n σ) := by
+  intro n
+  induction n with
+  | zero => intro σ h; exact h
+  | succ n ih =>
+    intro σ h
+    simp only [whileN]
+    split
+    · exact ih _ (hf σ h)
+    · exact h
+
+/-- **frame**: a statement changes only its `rwvars` -/
+theorem rexec_frame {fuel : Nat} {s : RStmt} {σ : Store} {x : Nat} (hx : x ∉ rwvars s) (i j : Int) :
+    (rexec fuel s σ) (x, i, j) = σ (x, i, j) := by
+  induction s generalizing σ with
+  | skip => rfl
   | seq a b iha ihb =>
-    simp only [wvars, List.mem_append] at h
+    simp only [rwvars, List.mem_append, not_or] at hx
+    simp only [rexec]
+    rw [ihb hx.2, iha hx.1]
+  | assign y e =>
+    simp only [rwvars, List.mem_singleton] at hx
+    simp only [rexec, Store.set_apply]
+    rw [if_neg]
+    intro h; apply hx; exact congrArg Prod.fst h
+  | store1 a i' e =>
+    simp only [rwvars, List.mem_singleton] at hx
+    simp only [rexec, Store.set_apply]
+    rw [if_neg]
+    intro h; apply hx; exact congrArg Prod.fst h
+  | store2 a i' j' e =>
+    simp only [rwvars, List.mem_singleton] at hx
+    simp only [rexec, Store.set_apply]
+    rw [if_neg]
+    intro h; apply hx; exact congrArg Prod.fst h
+  | ite c t f iht ihf =>
+    simp only [rwvars, List.mem_append, not_or] at hx
+    simp only [rexec]
+    split
+    · exact iht hx.1
+    · exact ihf hx.2
+  | loop v lo hi st b ih =>
+    simp only [rwvars, List.mem_cons, not_or] at hx
+    simp only [rexec, runIters_eq_iters, Store.set_apply]
+    rw [if_neg (by intro h; apply hx.1; exact congrArg Prod.fst h)]
+    have := iters_invariant (fun τ => τ (x, i, j) = σ (x, i, j)) (rexec fuel b) v (eval lo σ) (eval st σ)
+      (by
+        intro τ val hτ
+        show (rexec fuel b (τ.set (v, 0, 0) val)) (x, i, j) = σ (x, i, j)
+        rw [ih hx.2, Store.set_apply, if_neg (by intro h; apply hx.1; exact congrArg Prod.fst h)]
+        exact hτ)
+    exact this _ _ σ rfl
+  | whileDo c b ih =>
+    simp only [rwvars] at hx
+    simp only [rexec]
+    exact whileN_invariant (fun τ => τ (x, i, j) = σ (x, i, j)) c (rexec fuel b)
+      (fun τ hτ => by show (rexec fuel b τ) (x, i, j) = σ (x, i, j); rw [ih hx]; exact hτ) fuel σ rfl
+
+/-- every statically written variable has a WRITE event -/
+theorem wvars_written {s : RStmt} {x : Nat} (h : x ∈ rwvars s) : isWritten (sacc s) x = true := by
+  induction s with
+  | skip => simp [rwvars] at h
+  | seq a b iha ihb =>
+    simp only [rwvars, List.mem_append] at h
     rw [isWritten_iff]
     rcases h with h | h
     · obtain ⟨e, he, hv⟩ := isWritten_iff.mp (iha h)
@@ -84,19 +166,19 @@ theorem wvars_written {s : Stmt} {x : Nat} (h : x ∈ wvars s) : isWritten (sacc
     · obtain ⟨e, he, hv⟩ := isWritten_iff.mp (ihb h)
       exact ⟨e, by simp [sacc, he], hv⟩
   | assign y e =>
-    simp only [wvars, List.mem_singleton] at h
+    simp only [rwvars, List.mem_singleton] at h
     rw [isWritten_iff]
     exact ⟨⟨y, true, false⟩, by simp [sacc], h.symm, rfl⟩
   | store1 a i e =>
-    simp only [wvars, List.mem_singleton] at h
+    simp only [rwvars, List.mem_singleton] at h
     rw [isWritten_iff]
     exact ⟨⟨a, true, true⟩, by simp [sacc], h.symm, rfl⟩
   | store2 a i j e =>
-    simp only [wvars, List.mem_singleton] at h
+    simp only [rwvars, List.mem_singleton] at h
     rw [isWritten_iff]
     exact ⟨⟨a, true, true⟩, by simp [sacc], h.symm, rfl⟩
   | ite c t f iht ihf =>
-    simp only [wvars, List.mem_append] at h
+    simp only [rwvars, List.mem_append] at h
     rw [isWritten_iff]
     rcases h with h | h
     · obtain ⟨e, he, hv⟩ := isWritten_iff.mp (iht h)
@@ -104,12 +186,17 @@ theorem wvars_written {s : Stmt} {x : Nat} (h : x ∈ wvars s) : isWritten (sacc
     · obtain ⟨e, he, hv⟩ := isWritten_iff.mp (ihf h)
       exact ⟨e, by simp [sacc, he], hv⟩
   | loop v lo hi st b ih =>
-    simp only [wvars, List.mem_cons] at h
+    simp only [rwvars, List.mem_cons] at h
     rw [isWritten_iff]
     rcases h with h | h
     · exact ⟨⟨v, true, false⟩, by simp [sacc], h.symm, rfl⟩
     · obtain ⟨e, he, hv⟩ := isWritten_iff.mp (ih h)
       exact ⟨e, by simp [sacc, he], hv⟩
+  | whileDo c b ih =>
+    simp only [rwvars] at h
+    rw [isWritten_iff]
+    obtain ⟨e, he, hv⟩ := isWritten_iff.mp (ih h)
+    exact ⟨e, by simp [sacc, he], hv⟩
 
 /-! ## simulation -/
 
@@ -225,10 +312,24 @@ theorem iters_sim (P : Store → Store → Prop) (f : Store → Store) (v : Nat)
   | zero => intro k σ τ h; exact h
   | succ n ih => intro k σ τ h; exact ih _ _ _ (hf σ τ _ h)
 
-theorem chk_sim {A0 : Loc → Prop} {K : List Nat} {σ0 τ0 : Store} (s : Stmt) :
+/-- two-run invariant of a `DO WHILE`: both runs take the same decisions -/
+theorem whileN_sim (P : Store → Store → Prop) (c : Expr) (f : Store → Store)
+    (hc : ∀ σ τ, P σ τ → eval c σ = eval c τ) (hf : ∀ σ τ, P σ τ → P (f σ) (f τ)) :
+    ∀ n σ τ, P σ τ → P (whileN c f n σ) (whileN c f n τ) := by
+  intro n
+  induction n with
+  | zero => intro σ τ h; exact h
+  | succ n ih =>
+    intro σ τ h
+    simp only [whileN, hc σ τ h]
+    split
+    · exact ih _ _ (hf σ τ h)
+    · exact h
+
+theorem chk_sim {fuel : Nat} {A0 : Loc → Prop} {K : List Nat} {σ0 τ0 : Store} (s : RStmt) :
     ∀ (D D' : List Nat) (σ τ : Store), chk K s D = some D' → KOK A0 K (sacc s) →
       Sim (Adef A0 D) σ0 τ0 σ τ →
-      Sim (Adef A0 D') σ0 τ0 (exec s σ) (exec s τ) ∧ (∀ x ∈ D, x ∈ D') := by
+      Sim (Adef A0 D') σ0 τ0 (rexec fuel s σ) (rexec fuel s τ) ∧ (∀ x ∈ D, x ∈ D') := by
   induction s with
   | skip =>
     intro D D' σ τ hc _ h
@@ -250,7 +351,7 @@ theorem chk_sim {A0 : Loc → Prop} {K : List Nat} {σ0 τ0 : Store} (s : Stmt) 
       simp only [Option.some.injEq] at hc
       subst hc
       have he := eval_sim (hk.mono (fun e he => by simp [sacc, he])) hok h.agree
-      simp only [exec, he]
+      simp only [rexec, he]
       exact ⟨(h.set (x, 0, 0) (eval e τ)).weaken Adef_cons_of, fun y hy => List.mem_cons_of_mem _ hy⟩
     · exact absurd hc (by simp)
   | store1 a i e =>
@@ -263,7 +364,7 @@ theorem chk_sim {A0 : Loc → Prop} {K : List Nat} {σ0 τ0 : Store} (s : Stmt) 
       subst hc
       have hi := eval_sim (hk.mono (fun e he => by simp [sacc, he])) hok.1 h.agree
       have he := eval_sim (hk.mono (fun e he => by simp [sacc, he])) hok.2 h.agree
-      simp only [exec, he, hi]
+      simp only [rexec, he, hi]
       exact ⟨(h.set _ _).weaken (fun l hl => Or.inl hl), fun y hy => hy⟩
     · exact absurd hc (by simp)
   | store2 a i j e =>
@@ -277,7 +378,7 @@ theorem chk_sim {A0 : Loc → Prop} {K : List Nat} {σ0 τ0 : Store} (s : Stmt) 
       have hi := eval_sim (hk.mono (fun e he => by simp [sacc, he])) hok.1.1 h.agree
       have hj := eval_sim (hk.mono (fun e he => by simp [sacc, he])) hok.1.2 h.agree
       have he := eval_sim (hk.mono (fun e he => by simp [sacc, he])) hok.2 h.agree
-      simp only [exec, he, hi, hj]
+      simp only [rexec, he, hi, hj]
       exact ⟨(h.set _ _).weaken (fun l hl => Or.inl hl), fun y hy => hy⟩
     · exact absurd hc (by simp)
   | ite c t f iht ihf =>
@@ -290,7 +391,7 @@ theorem chk_sim {A0 : Loc → Prop} {K : List Nat} {σ0 τ0 : Store} (s : Stmt) 
       subst hc
       obtain ⟨⟨hcnd, ⟨Dt, ht⟩⟩, ⟨Df, hf⟩⟩ := hok
       have hc' := eval_sim (hk.mono (fun e he => by simp [sacc, he])) hcnd h.agree
-      simp only [exec, hc']
+      simp only [rexec, hc']
       refine ⟨?_, fun y hy => hy⟩
       split
       · obtain ⟨s1, m1⟩ := iht D Dt σ τ ht (hk.mono (fun e he => by simp [sacc, he])) h
@@ -310,17 +411,35 @@ theorem chk_sim {A0 : Loc → Prop} {K : List Nat} {σ0 τ0 : Store} (s : Stmt) 
       have e1 := eval_sim (hk.mono (fun e he => by simp [sacc, he])) hlo h.agree
       have e2 := eval_sim (hk.mono (fun e he => by simp [sacc, he])) hhi h.agree
       have e3 := eval_sim (hk.mono (fun e he => by simp [sacc, he])) hst h.agree
-      simp only [exec, runIters_eq_iters, e1, e2, e3]
+      simp only [rexec, runIters_eq_iters, e1, e2, e3]
       refine ⟨?_, fun y hy => List.mem_cons_of_mem _ hy⟩
       have hbody : ∀ σ' τ' val, Sim (Adef A0 D) σ0 τ0 σ' τ' →
-          Sim (Adef A0 D) σ0 τ0 (exec b (σ'.set (v, 0, 0) val)) (exec b (τ'.set (v, 0, 0) val)) := by
+          Sim (Adef A0 D) σ0 τ0 (rexec fuel b (σ'.set (v, 0, 0) val)) (rexec fuel b (τ'.set (v, 0, 0) val)) := by
         intro σ' τ' val h'
         obtain ⟨s1, m1⟩ := ih (v :: D) Db _ _ hb (hk.mono (fun e he => by simp [sacc, he]))
           ((h'.set (v, 0, 0) val).weaken Adef_cons_of)
         exact s1.weaken (Adef_mono (fun x hx => m1 x (List.mem_cons_of_mem _ hx)))
-      have := iters_sim (fun σ' τ' => Sim (Adef A0 D) σ0 τ0 σ' τ') (exec b) v (eval lo τ) (eval st τ)
+      have := iters_sim (fun σ' τ' => Sim (Adef A0 D) σ0 τ0 σ' τ') (rexec fuel b) v (eval lo τ) (eval st τ)
         hbody (trip (eval lo τ) (eval hi τ) (eval st τ)) 0 σ τ h
       exact (this.set _ _).weaken Adef_cons_of
+    · exact absurd hc (by simp)
+  | whileDo c b ih =>
+    intro D D' σ τ hc hk h
+    simp only [chk] at hc
+    split at hc
+    · rename_i hok
+      simp only [Bool.and_eq_true, Option.isSome_iff_exists] at hok
+      simp only [Option.some.injEq] at hc
+      subst hc
+      obtain ⟨hcnd, ⟨Db, hb⟩⟩ := hok
+      simp only [rexec]
+      refine ⟨?_, fun y hy => hy⟩
+      exact whileN_sim (fun σ' τ' => Sim (Adef A0 D) σ0 τ0 σ' τ') c (rexec fuel b)
+        (fun σ' τ' h' => eval_sim (hk.mono (fun e he => by simp [sacc, he])) hcnd h'.agree)
+        (fun σ' τ' h' => by
+          obtain ⟨s1, m1⟩ := ih D Db σ' τ' hb (hk.mono (fun e he => by simp [sacc, he])) h'
+          exact s1.weaken (Adef_mono m1))
+        fuel σ τ h
     · exact absurd hc (by simp)
 
 /-- `chk` succeeds (from any `D`) when every read is of a variable in `K` -/
@@ -330,7 +449,7 @@ theorem okE_of_reads {K D : List Nat} {e : Expr} (h : ∀ ev ∈ eacc e, ev.var 
   intro ev hev
   simp [okEv, h ev hev]
 
-theorem chk_of_reads {K : List Nat} (s : Stmt) :
+theorem chk_of_reads {K : List Nat} (s : RStmt) :
     ∀ D, (∀ ev ∈ sacc s, ev.write = false → ev.var ∈ K) → (chk K s D).isSome = true := by
   induction s with
   | skip => intro D _; simp [chk]
@@ -377,5 +496,11 @@ theorem chk_of_reads {K : List Nat} (s : Stmt) :
       (fun ev he => h ev (by simp [sacc, he]) (eacc_read ev he))
     have h4 := ih (v :: D) (fun ev he => h ev (by simp [sacc, he]))
     simp [chk, h1, h2, h3, h4]
+  | whileDo c b ih =>
+    intro D h
+    have h1 := okE_of_reads (K := K) (D := D) (e := c)
+      (fun ev he => h ev (by simp [sacc, he]) (eacc_read ev he))
+    have h2 := ih D (fun ev he => h ev (by simp [sacc, he]))
+    simp [chk, h1, h2]
 
 end RegionData
